@@ -304,6 +304,6 @@ def cases(draw, measures):
 
 def units(tier):
     return [
-        Unit("random-walk", check, strategy=lambda: cases(["mfpt", "diffusion", "pagerank", "pagerank"]), examples=(4000, 20000), shards=(8, 16)),
-        Unit("spectral", check, strategy=lambda: cases(["subgraph", "eigenvector", "findwalks"]), examples=(5000, 25000), shards=(8, 16)),
+        Unit("random-walk", check, strategy=lambda: cases(["mfpt", "diffusion", "pagerank", "pagerank"]), examples=(4000, 100000), shards=(8, 16)),
+        Unit("spectral", check, strategy=lambda: cases(["subgraph", "eigenvector", "findwalks"]), examples=(5000, 125000), shards=(8, 16)),
     ]
